@@ -20,7 +20,9 @@ def run(rep, tier):
     from .c19 import pairing
     common.guarded(rep, "C08.2", pairing, rep, get_ord(rep), ix, "C08.2")     # the register wires are read from .regrefs: it must list every register of the expression
     from . import c08
-    common.guarded(rep, "C08.4", c08.c08_4, rep, ix)       # a register wire exists only if the argument that reads the register was wrapped into a transform
+    common.guarded(rep, "C08.4", c08.c08_4, rep, ix)
+    from ..gram import model as gm
+    common.guarded(rep, "C08.3", c08.c08_3, rep, ix, gm.Grammar(gm.read(gm.FILES["g4"], rep)))     # the wire of a register qN is N (all digits of the token)       # a register wire exists only if the argument that reads the register was wrapped into a transform
     c16_4(rep, ix, f)
     shape = common.guarded(rep, "C16.1", recognise, rep, ix, f)
     if shape is not None:
@@ -56,11 +58,11 @@ class DepEval:
         """args / kwargs-values coverage of an iterable expression"""
         t = " ".join(u(e).split())
         op = self.op
-        if t in ("%s['args']" % op, "%s.get('args', [])" % op, "%s.get('args', ())" % op):
+        if t in ("%s['args']" % op, "%s.get('args', [])" % op, "%s.get('args', ())" % op, "%s['args'] if 'args' in %s else []" % (op, op), "%s['args'] if 'args' in %s else ()" % (op, op)):
             return {"args"}
         if isinstance(e, ast.Call) and isinstance(e.func, ast.Attribute) and e.func.attr in ("values", "items") and not e.args:
             base = " ".join(u(self.resolve(e.func.value)).split())
-            if base in ("%s['kwargs']" % op, "%s.get('kwargs', {})" % op):
+            if base in ("%s['kwargs']" % op, "%s.get('kwargs', {})" % op, "%s['kwargs'] if 'kwargs' in %s else {}" % (op, op)):
                 return {"kwargs"}
             return {"other"}
         if isinstance(e, ast.Name):
@@ -264,6 +266,11 @@ def c16_2(rep, ix, f, sh):
         fwd = (a0, a1) == ("%s[%s - 1][0]" % (cm, i), "%s[%s][0]" % (cm, i))
         rev = (a1, a0) == ("%s[%s - 1][0]" % (cm, i), "%s[%s][0]" % (cm, i))
         verdict = True if fwd else (False if rev else None)
+    elif isinstance(l.target, ast.Name) and " ".join(u(l.iter).split()) == "range(len(%s) - 1)" % cm:
+        i = l.target.id
+        fwd = (a0, a1) == ("%s[%s][0]" % (cm, i), "%s[%s + 1][0]" % (cm, i))
+        rev = (a1, a0) == ("%s[%s][0]" % (cm, i), "%s[%s + 1][0]" % (cm, i))
+        verdict = True if fwd else (False if rev else None)
     elif " ".join(u(l.iter).split()) in ("zip(%s, %s[1:])" % (cm, cm), "zip(%s[:-1], %s[1:])" % (cm, cm), "pairwise(%s)" % cm, "itertools.pairwise(%s)" % cm) \
             and isinstance(l.target, ast.Tuple) and len(l.target.elts) == 2:
         def index_of(t):
@@ -362,10 +369,10 @@ def c16_3(rep, ix, f, sh):
         okargs = argsrc in ("%s['args']" % op, "args") and kwsrc in ("%s['kwargs']" % op, "kwargs")
         if argsrc == "args":
             a = [n for n in walk_shallow(sh["loop"]) if isinstance(n, ast.Assign) and u(n.targets[0]) == "args"]
-            okargs = okargs and len(a) == 1 and u(a[0].value) in ("%s.get('args', [])" % op, "%s['args']" % op)
+            okargs = okargs and len(a) == 1 and " ".join(u(a[0].value).split()) in ("%s.get('args', [])" % op, "%s['args']" % op, "%s['args'] if 'args' in %s else []" % (op, op))
         if kwsrc == "kwargs":
             a = [n for n in walk_shallow(sh["loop"]) if isinstance(n, ast.Assign) and u(n.targets[0]) == "kwargs"]
-            okargs = okargs and len(a) == 1 and u(a[0].value) in ("%s.get('kwargs', {})" % op, "%s['kwargs']" % op)
+            okargs = okargs and len(a) == 1 and " ".join(u(a[0].value).split()) in ("%s.get('kwargs', {})" % op, "%s['kwargs']" % op, "%s['kwargs'] if 'kwargs' in %s else {}" % (op, op))
         ok = want_name and want_modes and okargs
         detail = str(kw)
     rep.check(ok, R, ix.site(f, defs[0]) if defs else ix.site(f), "Command(name=op['op'], args=<op args>, kwargs=<op kwargs>, modes=tuple(op['modes']))", detail, key="command")
